@@ -249,6 +249,17 @@ pub fn generate(rng: &mut Rng, tier: Tier) -> Plan {
     // the same pair named more than once in one update: the later entry is the latest quote
     let gen_valid_items = |rng: &mut Rng, cur: &Vec<Quote>, float_only: bool| -> Vec<Quote> {
         let mut items = gen_valid_items(rng, cur, float_only);
+        // currency codes are case-insensitive
+        if rng.chance(0.06) {
+            for it in items.iter_mut() {
+                if rng.chance(0.5) {
+                    it.lhs = it.lhs.to_uppercase();
+                }
+                if rng.chance(0.5) {
+                    it.rhs = it.rhs.to_uppercase();
+                }
+            }
+        }
         if rng.chance(0.04) && !items.is_empty() {
             let mut dup = rng.pick(&items).clone();
             dup.num = dup.num.with_value(gen_level(rng));
@@ -456,6 +467,16 @@ struct Model {
     share_vars: bool,
 }
 
+fn lower_quote(q: &Quote) -> Quote {
+    Quote {
+        lhs: q.lhs.to_lowercase(),
+        rhs: q.rhs.to_lowercase(),
+        num: q.num.clone(),
+        settle: q.settle,
+        tod: q.tod,
+    }
+}
+
 enum Expect {
     Accept(Vec<Quote>),
     RefuseUnknown,
@@ -469,6 +490,12 @@ fn settlement_consistent(qs: &[Quote]) -> bool {
 
 impl Model {
     fn new(setup: &Setup) -> Model {
+        // the constructors lower-case currency names: "USD" and "usd" are one currency
+        let setup = &Setup {
+            quotes: setup.quotes.iter().map(lower_quote).collect(),
+            base: setup.base.as_ref().map(|b| b.to_lowercase()),
+            share_vars: setup.share_vars,
+        };
         let mut ccys: Vec<String> = Vec::new();
         if let Some(b) = &setup.base {
             ccys.push(b.clone());
@@ -490,6 +517,8 @@ impl Model {
     }
 
     fn expect_update(&self, items: &[Quote]) -> Expect {
+        let items: Vec<Quote> = items.iter().map(lower_quote).collect();
+        let items = &items[..];
         for it in items {
             if !self
                 .quotes
